@@ -8,7 +8,7 @@ ASSUMPTIONS = ["callee contracts of the array functions (abstract kernels keyed 
                "extents >= 1; floats as reals"]
 TRUSTED = ["linear-form domain and one-point rule of pyvc/snp.py"]
 BOUNDS = {"rank": "<= 3", "operands": "<= 3"}
-NOT_DECIDED = []
+NOT_DECIDED = ["Hstack / Vstack / Diag with axis=None on operands of rank >= 2 (flattened stacking): bounded native probe only (rank-1 operands are proved)"]
 
 
 def functions():
